@@ -432,8 +432,14 @@ fn case(ctx: &Ctx, rep: &mut Report, case: u64, g: &mut Sm64, kind: Kind) {
     // start state for every seed)
     let moved = {
         let (nc, n, d) = (base[0] as usize, base[1] as usize, base[2] as usize);
-        (0..nc).any(|c| (0..n).any(|k| (0..d).any(|j| base[3 + (c * n + k) * d + j] != (cfg.inits[c][j] as f64).to_bits()
-            && base[3 + (c * n + k) * d + j] != ((cfg.inits[c][j] as f32) as f64).to_bits())))
+        // the start states as the sampler received them (the 2-D kinds take the first and last coordinate)
+        let eff: Vec<Vec<f64>> = if matches!(kind, Kind::MhGauss2D | Kind::HmcGauss2D | Kind::NutsGauss2D) {
+            cfg.inits.iter().map(|r| vec![r[0], r[r.len() - 1]]).collect()
+        } else {
+            cfg.inits.clone()
+        };
+        (0..nc).any(|c| (0..n).any(|k| (0..d).any(|j| base[3 + (c * n + k) * d + j] != (eff[c][j] as f64).to_bits()
+            && base[3 + (c * n + k) * d + j] != ((eff[c][j] as f32) as f64).to_bits())))
     };
     let moved = moved || kind == Kind::HmcWide;
     if kind != Kind::Gibbs && !moved {
